@@ -36,3 +36,9 @@ package format
 //@   ensures only_if_marshalled: evres(0, 1) == nil
 //@   ensures marshalled: nemitted() == 2 && evis(0, "encoding/json.Marshal") && evarg(0, 0) == message && evis(1, "OutboundContext.HandleWrite") && evrecv(1) == ctx && is(evarg(1, 0), []byte) && sameslice(as(evarg(1, 0), []byte), evres(0, 0))
 //@   ensures_panic nothing_written: count("OutboundContext.HandleWrite") == 0 || nemitted() == 2
+
+// C09 / C12: codec instances are shared by concurrent writers: configuration only, fixed at construction
+//@ property C09 C12 C16
+//@ field jsonCodec.* covered
+//@ field jsonCodec.useNumber immutable JSONCodec
+//@ field jsonCodec.disAllowUnknownFields immutable JSONCodec
